@@ -8,6 +8,7 @@ TPL = {"orig:P": "P0 {x:name}|{y}", "orig:C": "C0 {y:line}|{x}", "orig:N": "N0 {
        # attributes of a field value, among them the names the template machinery uses for itself
        # values that cannot describe themselves
        "kwh": "KH {rec}|{mute}|{x:name}",
+       "kws": "KS {x}|{location.line:line}",
        "kwa": "KA {pt.value}|{pt.key:name}|{pt.formatter}|{pt.other}|{pt._hidden}|{fn.__name__:name}|{x}"}
 
 
@@ -155,6 +156,9 @@ class World:
         fields = dict(self.fields(c))
         if c == "T":
             fields["name_message"] = self.objs[i - 1].fields.get("name_message")
+        if m["t"] == "kws":
+            from pedal.core.location import Location
+            fields["location"] = Location(i)        # created with location=<its own index>
         out = []
         for lit, field, spec, conv in string.Formatter().parse(tpl):
             out.append(lit)
@@ -209,6 +213,16 @@ class World:
                     f = self.fields(c)
                     if out == "MR":
                         f = {}      # template fields missing -> KeyError while rendering the message
+                    if mk == "kwshared" and out != "MR":
+                        # one dictionary object for every feedback of this behaviour, and a location of its own
+                        if not hasattr(self, "_shared_fields"):
+                            self._shared_fields = dict(f)
+                        kw["message_template"] = TPL["kws"]
+                        kw["fields"] = self._shared_fields
+                        kw["location"] = i
+                        f = {}
+                    elif mk == "kwshared":
+                        kw["message_template"] = TPL["kws"]
                     kw.update(f)
                 cls = self.cls(c)
                 holder = []
